@@ -36,7 +36,7 @@ def one(m, args):
         else:
             apply_edits(d, m["edits"])
         if args.suite:
-            r = subprocess.run("cd %s && /venv/bin/python -m pytest -q -x -p no:cacheprovider --timeout=900 2>&1 | tail -3" % d,
+            r = subprocess.run("cd %s && unshare -n sh -c 'ip link set lo up; /venv/bin/python -m pytest -q -x -p no:cacheprovider --timeout=900' 2>&1 | tail -3" % d,
                                shell=True, capture_output=True, text=True)
             out["suite"] = "passed" if " passed" in r.stdout and "failed" not in r.stdout and "error" not in r.stdout.lower() else "KILLED-BY-SUITE: " + r.stdout.strip()[-200:]
         for pid in m["owners"]:
